@@ -274,6 +274,21 @@ Definition same_order (a b : obj) : bool :=
       && list_eqb String.eqb (map fst (m_obstrans strG x)) (map fst (m_obstrans strG y))
   | _, _ => true end.
 
+(* the two objects hold the same t, compartments and flows (all that enters the differential
+   equations) and, where == also looks at them, the same dosing compartments *)
+Definition cs_math_equal (x y : csys strG) : bool :=
+  expr_eqb strG (cs_t strG x) (cs_t strG y) && dod_eqb strG (cs_g strG x) (cs_g strG y).
+Definition stmt_dosing_agree (a b : stmt strG) : bool :=
+  match a, b with
+  | SOde _ x, SOde _ y => negb (cs_math_equal x y) || cs_eq strG x y
+  | _, _ => true end.
+Definition dosing_agree (a b : obj) : bool :=
+  match a, b with
+  | OCs x, OCs y => stmt_dosing_agree (SOde strG x) (SOde strG y)
+  | OStmts x, OStmts y => zip_all stmt_dosing_agree x y
+  | OModel x, OModel y => zip_all stmt_dosing_agree (m_statements strG x) (m_statements strG y)
+  | _, _ => true end.
+
 Definition pverdict (c : pcase) : list nat :=
   let a := p_a c in let b := p_b c in
   let texts := pyv_same (normalise (obj_encode a)) (normalise (obj_encode b)) in
@@ -294,7 +309,7 @@ Definition pverdict (c : pcase) : list nat :=
   tag (p_key_stable c) 15 ++
   (* different data => different key *)
   tag (match p_key_eq c with Some true => p_same_ds c | _ => true end) 21 ++
-  tag (same_order a b) 204 ++
+  tag (same_order a b) 204 ++ tag (dosing_agree a b) 209 ++
   tag (derivs_free a && derivs_free b) 201 ++
   tag (obj_no_nan a && obj_no_nan b) 205.
 
